@@ -76,3 +76,16 @@ func (s *Service) VerifSnapshot() []VerifConnSnap {
 	sort.Slice(out, func(i, j int) bool { return out[i].CID < out[j].CID })
 	return out
 }
+
+// VerifConnQueueLens returns the task queue length of every live connection by connection id.
+func (s *Service) VerifConnQueueLens() map[string]int {
+	s.mu.Lock()
+	defer s.mu.Unlock()
+	out := make(map[string]int, len(s.conns))
+	for cid, c := range s.conns {
+		c.mu.Lock()
+		out[cid] = len(c.queue)
+		c.mu.Unlock()
+	}
+	return out
+}
